@@ -117,7 +117,13 @@ func (r *Run) KnownSet() string {
 	return "{" + strings.Join(q, ", ") + "}"
 }
 
-func (r *Run) Cleanup() { os.RemoveAll(r.Scratch) }
+func (r *Run) Cleanup() {
+	if os.Getenv("VERIF_KEEP_SCRATCH") != "" {
+		fmt.Fprintln(os.Stderr, "scratch kept:", r.Scratch)
+		return
+	}
+	os.RemoveAll(r.Scratch)
+}
 
 func (r *Run) AddStates(states, transitions int64) {
 	r.mu.Lock()
